@@ -47,7 +47,9 @@ LEVEL_TEXT = ('For generated probes and prior configurations, each binding attem
 LEVEL_NOTE = 'Trusted: the acceptance model (5 lines); inspect.signature for probe calls.'
 
 REJECT = (ValueError, LookupError)
-APIS = ['bind_str', 'bind_tuple', 'parse_flat', 'block', 'multi', 'hook_str', 'hook_tuple']
+APIS = ['bind_str', 'bind_tuple', 'parse_flat', 'block', 'multi', 'hook_str', 'hook_tuple',
+        # skip_unknown concerns unknown *configurables* only: what a known one refuses is still an error
+        'parse_skip', 'block_skip']
 
 
 DYN_SRC = ('class Pipeline:\n'
@@ -227,6 +229,11 @@ def check_static(case, prebuilt=None):
       fn = lambda: gin.parse_config(f'{key}.{param} = {value!r}\n')
     elif api == 'block':
       fn = lambda: gin.parse_config(f'{key}:\n  {param} = {value!r}\n')
+    elif api in ('parse_skip', 'block_skip'):
+      su = [True, [sp], (sp, 'nosuch'), {sp}][len(key + param) % 4]
+      text = (f'{key}.{param} = {value!r}\n' if api == 'parse_skip'
+              else f'{key}:\n  {param} = {value!r}\n')
+      fn = lambda: gin.parse_config(text, skip_unknown=su)
     elif api == 'multi':
       # a valid statement before, one after: prefix applied, suffix not (C16), middle per model
       first = shape['dflt'][0] if shape['dflt'] and accept(shape['dflt'][0], 'full') else None
@@ -258,6 +265,20 @@ def check_static(case, prebuilt=None):
       raised = None
     except REJECT as e:
       raised = e
+    if api in ('parse_skip', 'block_skip') and is_method and sp_kind in ('bare', 'mod_meth'):
+      # a spelling without the class name matches no configurable: rejected, or (being "unknown")
+      # skipped -- in both cases nothing may change
+      require(snapshot() == before and probe_results() == before_probe,
+              'unaddressable-method-binding-changed-config', f'{api} {key}.{param}')
+      labels.add('verdict:rejected-or-skipped')
+      continue
+    if api in ('parse_skip', 'block_skip') and sp_kind.startswith('unknown'):
+      # an unknown configurable is what skip_unknown is for: dropped silently, nothing changes
+      require(raised is None, 'covered-unknown-configurable-rejected', lambda: f'{raised!r}')
+      require(snapshot() == before and probe_results() == before_probe,
+              'skipped-binding-changed-config', f'{api} {key}.{param}')
+      labels.add('verdict:skipped')
+      continue
     if accepted:
       require(raised is None, 'valid-binding-rejected',
               lambda: f'{api} {key}.{param}: {raised!r}; allow={allow} deny={deny}')
@@ -310,7 +331,7 @@ def _param_classes(shape):
 def _dyn_case(draw):
   attempts = []
   for i in range(draw(st.integers(1, 4))):
-    attempts.append([draw(st.sampled_from(APIS)),
+    attempts.append([draw(st.sampled_from(APIS[:7])),
                      draw(st.sampled_from(['full', 'short', 'bare', 'bare', 'class_dot', 'unknown'])),
                      draw(st.sampled_from(['', '', 's'])),
                      draw(st.sampled_from(['steps', 'rate', 'zz_unknown'])), 'A%d' % i])
